@@ -187,6 +187,8 @@ func (s *Sorts) Axiom(trigger, cmd string) {
 	s.axioms = append(s.axioms, axiom{trigger, cmd})
 }
 
+const emptyStr = "(mkstr ((as const (Array Int Int)) 0) 0 0)"
+
 const basePrelude = `(set-option :produce-models true)
 (set-logic ALL)
 (declare-datatypes ((Str 0)) (((mkstr (s.arr (Array Int Int)) (s.off Int) (s.len Int)))))
@@ -195,13 +197,20 @@ const basePrelude = `(set-option :produce-models true)
 (define-fun gdiv ((a Int) (b Int)) Int (ite (>= a 0) (ite (> b 0) (div a b) (- (div a (- b)))) (ite (> b 0) (- (div (- a) b)) (div (- a) (- b)))))
 (define-fun gmod ((a Int) (b Int)) Int (- a (* b (gdiv a b))))
 (define-fun rtrunc ((x Real)) Int (ite (>= x 0.0) (to_int x) (- (to_int (- x)))))
-(define-fun s.at ((s Str) (i Int)) Int (select (s.arr s) (+ (s.off s) i)))
+(declare-fun s.ix (Str Int) Int)
+(declare-fun sl.ix (Slice Int) Int)
+(assert (forall ((s Str) (i Int)) (! (= (s.ix s i) (+ (s.off s) i)) :pattern ((s.ix s i)))))
+(assert (forall ((s Slice) (i Int)) (! (= (sl.ix s i) (+ (sl.off s) i)) :pattern ((sl.ix s i)))))
+(define-fun s.at ((s Str) (i Int)) Int (select (s.arr s) (s.ix s i)))
 (define-fun emptystr () Str (mkstr ((as const (Array Int Int)) 0) 0 0))
 `
 
 const streqAxioms = `(declare-fun streq (Str Str) Bool)
-(assert (forall ((a Str) (b Str)) (! (=> (streq a b) (and (= (s.len a) (s.len b)) (forall ((i Int)) (=> (and (<= 0 i) (< i (s.len a))) (= (s.at a i) (s.at b i)))))) :pattern ((streq a b)))))
+(declare-fun streq.wit (Str Str) Int)
+(assert (forall ((a Str) (b Str)) (! (=> (streq a b) (= (s.len a) (s.len b))) :pattern ((streq a b)))))
+(assert (forall ((a Str) (b Str) (j Int)) (! (=> (and (streq a b) (<= (s.off a) j) (< j (+ (s.off a) (s.len a)))) (= (select (s.arr a) j) (select (s.arr b) (+ (- j (s.off a)) (s.off b))))) :pattern ((streq a b) (select (s.arr a) j)))))
 (assert (forall ((a Str)) (! (streq a a) :pattern ((streq a a)))))
+(assert (forall ((a Str) (b Str)) (! (=> (and (= (s.len a) (s.len b)) (=> (and (<= 0 (streq.wit a b)) (< (streq.wit a b) (s.len a))) (= (s.at a (streq.wit a b)) (s.at b (streq.wit a b))))) (streq a b)) :pattern ((streq a b)))))
 (assert (forall ((a Str) (b Str)) (! (= (streq a b) (streq b a)) :pattern ((streq a b)))))
 `
 
@@ -267,7 +276,7 @@ func (s *Sorts) Zero(t types.Type) string {
 		case u.Info()&types.IsFloat != 0:
 			return "0.0"
 		case u.Info()&types.IsString != 0:
-			return "emptystr"
+			return emptyStr
 		}
 		return "0"
 	case *types.Slice:
